@@ -441,7 +441,7 @@ func (rf *ReplicaFollower) metaSync(sp StartPoint, cli pb.ApiServiceClient) (pb.
 		return nil, nil, err
 	}
 	resp, err := stream.Recv()
-	if err = rf.handleResp(err, resp); err != nil {
+	if err = rf.handleResp(err, resp, sp.RunId); err != nil { // CLEAR : delete the run id and start over
 		return nil, nil, err
 	}
 	return stream, resp, nil
